@@ -19,7 +19,7 @@ def register(cls):
 
 class Case:
     def __init__(self, label, args, post, pre=(), symbols=None, replay=None, models=None, inline=(), invariants=None,
-                 name_calls=None, zh=None, minimize=(), extra=None, heap=None, expect_paths=1):
+                 name_calls=None, zh=None, minimize=(), extra=None, heap=None, expect_paths=1, alloc=None, confirm=None):
         self.label, self.args, self.post, self.pre = label, args, post, list(pre)
         self.symbols = symbols or {}
         self.replay = replay
@@ -29,6 +29,8 @@ class Case:
         self.minimize = list(minimize)
         self.extra = extra           # extra(engine, paths) -> list of (name, hyps, goal): lemma-style obligations over the paths
         self.expect_paths = expect_paths
+        self.alloc = alloc
+        self.confirm = confirm       # confirm(witness, replay outcome) -> True (violation reproduced) / False / None
 
 
 class Contract:
@@ -127,11 +129,17 @@ def discharge(name, hyps, goal, tier="quick", facts=()):
 
 def model_values(solver, symbols, minimize=()):
     """concrete witness for the input symbols; tries small sizes first (list lengths, string lengths)"""
+    t_begin = time.time()
     def attempt(extra):
-        s2 = z3.Solver(); s2.set("timeout", 5000)
+        if time.time() - t_begin > 12:
+            return None
+        s2 = z3.Solver(); s2.set("timeout", 2000)
         s2.add(*solver.assertions()); s2.add(*extra)
         return s2 if s2.check() == z3.sat else None
     best = None
+    from . import simp
+    if any(simp.has_quantifier(a) for a in solver.assertions()):
+        t_begin -= 100          # quantified obligations: take the solver's own model, no bounded re-solving
     strs = [v for v in symbols.values() if is_sym(v) and v.sort() == Str]
     ints = list(minimize)
     for bound in (0, 1, 2, 3, 4, 6):
@@ -144,8 +152,12 @@ def model_values(solver, symbols, minimize=()):
     if best is None:
         best = attempt([])
     if best is None:
-        return None
-    m = best.model()
+        try:
+            m = solver.model()
+        except Exception:
+            return None
+    else:
+        m = best.model()
     out = {}
     for k, v in symbols.items():
         if isinstance(v, Pos):
@@ -176,7 +188,7 @@ def verify(contract, repo, tier="quick"):
         res["error"] = "contract setup failed: %s\n%s" % (e, traceback.format_exc())
         return res
     for case in cases:
-        E = Engine(repo, models=case.models, inline=case.inline, invariants=case.invariants, name_calls=case.name_calls)
+        E = Engine(repo, models=case.models, inline=case.inline, invariants=case.invariants, name_calls=case.name_calls, alloc=case.alloc)
         st0 = St(pc=tuple(case.pre), zh=case.zh, heap=case.heap)
         # cover: the precondition is satisfiable
         s = z3.Solver(); s.set("timeout", 5000); s.add(*case.pre)
@@ -219,6 +231,8 @@ def verify(contract, repo, tier="quick"):
                 w = model_values(solver, case.symbols, case.minimize)
                 d["witness"] = w
                 d["confirmed"] = None
+                if w is None and case.replay is not None and case.confirm is not None:
+                    w = {}
                 if w is not None and case.replay is not None:
                     try:
                         from . import replay as rp
@@ -227,7 +241,12 @@ def verify(contract, repo, tier="quick"):
                         if call is not None:
                             out = rp.run_call(repo, call)
                             d["replay_outcome"] = {k: v for k, v in out.items() if k != "tb"}
-                            if out.get("kind") == "return":
+                            if case.confirm is not None:
+                                g2 = None
+                                c_ = case.confirm(w, out)
+                                d["confirmed"] = bool(c_) if c_ is not None else None
+                                d["contract_holds_on_replay"] = (not c_) if c_ is not None else None
+                            elif out.get("kind") == "return":
                                 g2 = case.post("return", rp.to_value(out["value"]), None)
                             elif out.get("kind") == "raise":
                                 g2 = case.post("raise", Exc(rp.exc_class(out["exc"])), None)
